@@ -28,7 +28,13 @@ type Srv struct {
 	URL   string
 	NS    *server.NodeNameSpace
 	Nodes []*ua.NodeID // ns=1;s=n1 ...
+	RO    *ua.NodeID   // ns=1;s=r1: Int64 0, AccessLevel = CurrentRead only (writes are refused)
+	Map   *server.MapNamespace
+	Keys  []*ua.NodeID // ns=2;s=m1 ... : keys of the map namespace (Int64 0), same number as Nodes
 }
+
+// KeyName is the key of map entry i (0-based): "m1", "m2", ...
+func KeyName(i int) string { return fmt.Sprintf("m%d", i+1) }
 
 func freePort() (int, error) {
 	l, err := net.Listen("tcp", "127.0.0.1:0")
@@ -74,6 +80,19 @@ func StartFn(n int, value func(i int) any) (*Srv, error) {
 			nd := ns.AddNewVariableStringNode(NodeName(i), v)
 			ns.Objects().AddRef(nd, id.HasComponent, true)
 			res.Nodes = append(res.Nodes, nd.ID())
+		}
+		ro := ns.AddNewVariableStringNode("r1", int64(0))
+		ro.SetAttribute(ua.AttributeIDAccessLevel, server.DataValueFromValue(byte(ua.AccessLevelTypeCurrentRead)))
+		ro.SetAttribute(ua.AttributeIDUserAccessLevel, server.DataValueFromValue(byte(ua.AccessLevelTypeCurrentRead)))
+		ns.Objects().AddRef(ro, id.HasComponent, true)
+		res.RO = ro.ID()
+		// a map namespace next to the node namespace (layout of examples/server/map_server)
+		mp := server.NewMapNamespace(s, "g2map")
+		root.Objects().AddRef(mp.Objects(), id.HasComponent, true)
+		res.Map = mp
+		for i := 0; i < n; i++ {
+			mp.Data[KeyName(i)] = int64(0)
+			res.Keys = append(res.Keys, ua.NewStringNodeID(mp.ID(), KeyName(i)))
 		}
 		if err := s.Start(context.Background()); err != nil {
 			last = err
@@ -274,6 +293,18 @@ func WriteKind(c *opcua.Client, node *ua.NodeID, v int64, kind int, timeout time
 
 // WriteKindTS is WriteKind with an explicit source timestamp (zero = none).
 func WriteKindTS(c *opcua.Client, node *ua.NodeID, v int64, kind int, ts time.Time, timeout time.Duration) error {
+	st, err := WriteKindStatus(c, node, v, kind, ts, timeout)
+	if err != nil {
+		return err
+	}
+	if st != ua.StatusOK {
+		return fmt.Errorf("write status %v", st)
+	}
+	return nil
+}
+
+// WriteKindStatus returns the status code the server gave the write (err = no answer at all).
+func WriteKindStatus(c *opcua.Client, node *ua.NodeID, v int64, kind int, ts time.Time, timeout time.Duration) (ua.StatusCode, error) {
 	ctx, cancel := context.WithTimeout(context.Background(), timeout)
 	defer cancel()
 	dv := &ua.DataValue{EncodingMask: ua.DataValueValue, Value: variantOf(v, kind)}
@@ -286,19 +317,24 @@ func WriteKindTS(c *opcua.Client, node *ua.NodeID, v int64, kind int, ts time.Ti
 		Value: dv,
 	}}})
 	if err != nil {
-		return err
+		return 0, err
 	}
-	if len(resp.Results) != 1 || resp.Results[0] != ua.StatusOK {
-		return fmt.Errorf("write results %v", resp.Results)
+	if len(resp.Results) != 1 {
+		return 0, fmt.Errorf("write results %v", resp.Results)
 	}
-	return nil
+	return resp.Results[0], nil
 }
 
 // ReadTagged reads the Value attribute and returns Tagged(number, kind of the variant read).
 func ReadTagged(c *opcua.Client, node *ua.NodeID, timeout time.Duration) (int64, error) {
+	return ReadTaggedAge(c, node, 0, timeout)
+}
+
+// ReadTaggedAge is ReadTagged with a MaxAge (milliseconds) in the request.
+func ReadTaggedAge(c *opcua.Client, node *ua.NodeID, maxAge float64, timeout time.Duration) (int64, error) {
 	ctx, cancel := context.WithTimeout(context.Background(), timeout)
 	defer cancel()
-	resp, err := c.Read(ctx, &ua.ReadRequest{TimestampsToReturn: ua.TimestampsToReturnNeither,
+	resp, err := c.Read(ctx, &ua.ReadRequest{MaxAge: maxAge, TimestampsToReturn: ua.TimestampsToReturnNeither,
 		NodesToRead: []*ua.ReadValueID{{NodeID: node, AttributeID: ua.AttributeIDValue, DataEncoding: &ua.QualifiedName{}}}})
 	if err != nil {
 		return 0, err
